@@ -1139,7 +1139,8 @@ func main() {
 		nb = 24
 	}
 	for k := 0; k < nb; k++ {
-		emit("conc", []string{"P", strconv.Itoa([]int{48, 64, 32, 48}[k%4]), strconv.Itoa([]int{400, 250, 500, 300}[k%4])})
+		// ~6000 exchanges per batch: the oracle compares all pairs
+		emit("conc", []string{"P", strconv.Itoa([]int{48, 64, 32, 96}[k%4]), strconv.Itoa([]int{125, 90, 180, 60}[k%4])})
 	}
 	// 1. every combination of behaviour flags for a single request in every mode
 	//    (plain: 8 x 4 x 4 x 2; CONNECT blind / MITM: 8 x 2 x 4 x 2)
